@@ -39,3 +39,17 @@ Proof.
   unfold GenTable.aio_entries, row_cells, str_row, GenTable.row_nth, GenTable.col_width, GenTable.aio_cols.
   cbn [nth snd app]. rewrite !py_cut_cut, str_or_empty_id. reflexivity.
 Qed.
+
+(* the first line of str(scheduler): __headings formatted by __str__ = the model's heading followed by the job count *)
+Theorem tie_thr_heading mx tz pname n :
+  GenTable.thr_heading_line mx tz pname n = heading_thr mx tz pname ++ dec n ++ [NL; NL].
+Proof.
+  unfold GenTable.thr_heading_line, GenTable.thr_headings, heading_thr, lit. cbn [nth].
+  destruct (mx =? 0); cbn [negb]; repeat rewrite <- app_assoc; reflexivity.
+Qed.
+Theorem tie_aio_heading tz n :
+  GenTable.aio_heading_line tz n = heading_aio tz ++ dec n ++ [NL; NL].
+Proof.
+  unfold GenTable.aio_heading_line, GenTable.aio_headings, heading_aio, lit. cbn [nth].
+  repeat rewrite <- app_assoc; reflexivity.
+Qed.
